@@ -617,20 +617,31 @@ class Model():
             asset.name, asset.id, field_name
         )
         associated_assets = []
+        processed_associations: list = []
         for association in asset.associations:
-            # Determine which two of the fields matches the asset given.
-            # The other field will provide the associated assets.
+            # An asset that is present in both fields of an association
+            # lists that association twice, only process it once.
+            if any(association is processed
+                    for processed in processed_associations):
+                continue
+            processed_associations.append(association)
+
+            # Determine which of the two fields contain the asset given.
+            # The other field will provide the associated assets. If the
+            # asset is present in both fields both of them apply.
             left_field_name, right_field_name = \
                 self.get_association_field_names(association)
 
-            if asset in getattr(association, left_field_name):
-                opposite_field_name = right_field_name
-            else:
-                opposite_field_name = left_field_name
-
-            if opposite_field_name == field_name:
+            if right_field_name == field_name and \
+                    asset in getattr(association, left_field_name):
                 associated_assets.extend(
-                    getattr(association, opposite_field_name)
+                    getattr(association, right_field_name)
+                )
+
+            if left_field_name == field_name and \
+                    asset in getattr(association, right_field_name):
+                associated_assets.extend(
+                    getattr(association, left_field_name)
                 )
 
         return associated_assets
